@@ -994,7 +994,9 @@ def gen_stage_b_flags(c, tier, model_dir, tag, stats, faults):
         if meta["kind"] in ("intact",):
             continue
         if fn == "mdef":
-            add(mode, fn, ed, meta, "cionly=yes")
+            # quick tier: every truncation, 40 % of the corrupted counts (the tree count always)
+            if tier != "quick" or meta["kind"] != "field" or meta.get("field") == "n_cd_tree" or rng.chance(0.4):
+                add(mode, fn, ed, meta, "cionly=yes")
         elif rng.chance(0.25 if tier == "quick" else 1.0):
             add(mode, fn, ed, meta, CONFIGS[k % len(CONFIGS)])
             k += 1
@@ -1037,8 +1039,9 @@ def judge_maps(res, model_lens):
         for pr in (d.get("mm", "-").split(",") if d.get("mm", "-") != "-" else []):
             a, b = (int(x) for x in pr.split(":"))
             n += 1
-            if model_lens.get((a, page)) != b:
-                bad.append((i, f"file of {a} bytes mapped, munmap given {b}, model mapLen = {model_lens.get((a, page))}"))
+            # compared in pages (what the kernel releases): munmap(ptr, st_size) would be the same release
+            if model_lens.get((a, page)) is None or -(-b // page) != model_lens[(a, page)][1]:
+                bad.append((i, f"file of {a} bytes mapped, munmap given {b}, model (mapLen, pages) = {model_lens.get((a, page))}"))
     return bad, n, live
 
 
@@ -1054,7 +1057,7 @@ def model_maplens(sizes):
         if len(w) == 5 and w[0][1:].isdigit():
             a, p = qs[int(w[0][1:])]
             if int(w[1]) == a and w[3] == w[4]:       # pages unmapped = pages mapped (C17_unmap_is_map), evaluated
-                res[(a, p)] = int(w[2])
+                res[(a, p)] = (int(w[2]), int(w[4]))
     return res
 
 
